@@ -160,7 +160,9 @@ func avoidFor(prop string) func(hist.Step, *hist.MRunner) string {
 	}
 }
 
-func init() {
+func init() { applyGlobalGuards() }
+
+func applyGlobalGuards() {
 	if guard("F-29") {
 		hist.HideWriterTo = true
 		hist.OnHidden = func() { live.S.Exclude("F-29") }
